@@ -131,8 +131,8 @@ def build(S, tier):
         S.register_function(S.new_interp(), DM + ".attempt_displacement", 1)
 
     # ------------------------------------------------------------------ (B2) Verlet.integrate on explicit atoms
-    for cons in ("FixCom", "FixAtoms"):
-        def run_B2(I, cons=cons):
+    for cons, used in (("FixCom", False), ("FixAtoms", False), ("FixCom", True), ("FixAtoms", True)):
+        def run_B2(I, cons=cons, used=used):
             at = AtomsExplicit(I, 3, constraints=[ExplicitConstraint(cons, indices=[0] if cons == "FixAtoms" else None)])
             # the state at the start satisfies the constraint (momenta already adjusted)
             at.momenta = at.apply_momenta(I, at.momenta)
@@ -140,11 +140,15 @@ def build(S, tier):
             dt = I.path.fresh("dt")
             I.path.assume(dt.t > 0)
             ver = I.call(I.get_class(VER), [dt], {"max_steps": 2})
+            if used:
+                # the same integrator object was used before on atoms that carried no constraint (equilibration, another simulation)
+                free = AtomsExplicit(I, 3, tag="f")
+                I.call(I.getattr(ver, "integrate"), [I.new_obj("quansino.mc.contexts.HamiltonianDisplacementContext", atoms=free, rng=RngModel(), temperature=I.path.fresh("Tf"))], {})
             P0 = at.positions.copy()
             I.call(I.getattr(ver, "integrate"), [ctx], {})
             return dict(at=at, P0=P0, ver=ver)
 
-        label = f"{VER}.integrate[k=3,{cons}]"
+        label = f"{VER}.integrate[k=3,{cons}{', integrator used before without constraints' if used else ''}]"
         for i, p in enumerate(S.explore(run_B2, label)):
             S.adopt(p, prefix=f"[{label}]")
             if p.status != "return":
@@ -205,86 +209,95 @@ def build(S, tier):
         S.register_function(S.new_interp(), FB + ".step", 1)
 
     # ------------------------------------------------------------------ (C) FixRot.adjust_momenta
-    def run_C(I):
+    def run_C(I, again=False):
         at = AtomsExplicit(I, 3)
         fr = I.call(I.get_class("quansino.constraints.FixRot"), [], {})
         p0 = at.momenta.copy()
         mom = at.momenta.copy()
 
+        if again:
+            # an earlier call of the same constraint object on an earlier geometry of the same atoms (positions are updated in place)
+            I.call(I.getattr(fr, "adjust_momenta"), [at, at.momenta.copy()], {})
+            I.path.ghost["invs"] = []
+            at.positions.data[:] = [I.path.fresh(f"moved_x{j}") for j in range(9)]
         I.call(I.getattr(fr, "adjust_momenta"), [at, mom], {})
         at.momenta = mom
         return dict(at=at, p0=p0)
 
-    label = "quansino.constraints.FixRot.adjust_momenta[k=3]"
-    paths = S.explore(run_C, label)
-    S.register_function(S.new_interp(), "quansino.constraints.FixRot.adjust_momenta", len(paths))
-    for i, p in enumerate(paths):
-        S.adopt(p, prefix=f"[{label}]")
-        if p.status != "return":
-            if p.status == "raise":
-                S.prove(f"{label}#noraise@{i}", False, kind="noraise", why=f"raises {p.exc!r}")
-            continue
+    def check_fixrot(again):
+        label = "quansino.constraints.FixRot.adjust_momenta[k=3" + (", second call after the atoms moved]" if again else "]")
+        paths = S.explore(lambda I, again=again: run_C(I, again), label)
+        S.register_function(S.new_interp(), "quansino.constraints.FixRot.adjust_momenta", len(paths))
+        for i, p in enumerate(paths):
+            S.adopt(p, prefix=f"[{label}]")
+            if p.status != "return":
+                if p.status == "raise":
+                    S.prove(f"{label}#noraise@{i}", False, kind="noraise", why=f"raises {p.exc!r}")
+                continue
 
-        def post(i=i, p=p):
-            v = p.value
-            I = p.interp
-            at = v["at"]
-            eig, V = at.inertia_contract
-            pc = list(I.path.pc)
-            g = lambda T, a, b: R(T.get((a, b)))
-            dl = lambda a, b: 1 if a == b else 0
-            c = [R(x) for x in at.com_contract]
-            M = sum(R(at.masses.get((a,))) for a in range(3))
-            m = [R(at.masses.get((a,))) for a in range(3)]
-            r = [[R(at.positions.get((a, d))) - c[d] for d in range(3)] for a in range(3)]
-            p0 = [[R(v["p0"].get((a, d))) for d in range(3)] for a in range(3)]
-            pn = [[R(at.momenta.get((a, d))) for d in range(3)] for a in range(3)]
-            cross = lambda u, w: [u[1] * w[2] - u[2] * w[1], u[2] * w[0] - u[0] * w[2], u[0] * w[1] - u[1] * w[0]]
-            J = [[sum(m[k_] * ((sum(r[k_][d] ** 2 for d in range(3)) if a_ == b_ else 0) - r[k_][a_] * r[k_][b_]) for k_ in range(3)) for b_ in range(3)] for a_ in range(3)]
-            invs = I.path.ghost.get("invs", [])
-            H1 = [[sum(g(V, a_, k_) * g(V, b_, k_) for k_ in range(3)) - dl(a_, b_) for b_ in range(3)] for a_ in range(3)]          # V V^T - 1   (TRUSTED contract)
-            H3 = [[sum(g(V, k_, a_) * R(eig.get((k_,))) * g(V, k_, b_) for k_ in range(3)) - J[a_][b_] for b_ in range(3)] for a_ in range(3)]   # V^T D V - J (TRUSTED contract)
-            L0 = [sum(cross(r[a], p0[a])[c_] for a in range(3)) for c_ in range(3)]
-            Ln = [sum(cross(r[a], pn[a])[c_] for a in range(3)) for c_ in range(3)]
-            Hc = [M * c[d] - sum(m[a] * R(at.positions.get((a, d))) for a in range(3)) for d in range(3)]
-            if not invs or not all(t.shape == (3, 3) for t, _ in invs):
-                # another formulation (e.g. eigen-decomposition of the inverse): no lemma chain prepared, plain SMT
-                contract = [H1[a_][b_] == 0 for a_ in range(3) for b_ in range(3)] + [H3[a_][b_] == 0 for a_ in range(3) for b_ in range(3)]
-                contract += [sum(g(V, k_, a_) * g(V, k_, b_) for k_ in range(3)) == dl(a_, b_) for a_ in range(3) for b_ in range(3)]
-                S.prove(f"{label}#ensures.zero_total_angular_momentum@{i}", z3.And([x == 0 for x in Ln]), hyps=pc + contract, timeout_ms=60000)
-                S.prove(f"{label}#ensures.total_linear_momentum_unchanged@{i}", z3.And([sum(pn[a][d] for a in range(3)) == sum(p0[a][d] for a in range(3)) for d in range(3)]), hyps=pc + contract, timeout_ms=60000)
-                return
-            A, Y = invs[-1]
-            H4 = [[sum(g(A, a_, k_) * g(Y, k_, b_) for k_ in range(3)) - dl(a_, b_) for b_ in range(3)] for a_ in range(3)]          # A Y - 1
-            S.prove(f"{label}#lemma.inverse_axioms_are_path_facts@{i}", z3.And([H4[a_][b_] == 0 for a_ in range(3) for b_ in range(3)]), hyps=pc)
-            subX = []
-            for j, (Vin, X) in enumerate(invs[:-1]):
-                # --- lemma 1: an inverse of the axes matrix is its transpose
-                H2 = [[sum(g(X, a_, k_) * g(Vin, k_, b_) for k_ in range(3)) - dl(a_, b_) for b_ in range(3)] for a_ in range(3)]    # X Vin - 1
-                S.prove(f"{label}#lemma.inverse_axioms_are_path_facts[{j}]@{i}", z3.And([H2[a_][b_] == 0 for a_ in range(3) for b_ in range(3)]), hyps=pc)
-                ob = S.prove(f"{label}#lemma.earlier_inverse_is_of_the_axes[{j}]@{i}", z3.And([g(Vin, a_, b_) == g(V, a_, b_) for a_ in range(3) for b_ in range(3)]), hyps=pc)
+            def post(i=i, p=p):
+                v = p.value
+                I = p.interp
+                at = v["at"]
+                eig, V = at.inertia_contract
+                pc = list(I.path.pc)
+                g = lambda T, a, b: R(T.get((a, b)))
+                dl = lambda a, b: 1 if a == b else 0
+                c = [R(x) for x in at.com_contract]
+                M = sum(R(at.masses.get((a,))) for a in range(3))
+                m = [R(at.masses.get((a,))) for a in range(3)]
+                r = [[R(at.positions.get((a, d))) - c[d] for d in range(3)] for a in range(3)]
+                p0 = [[R(v["p0"].get((a, d))) for d in range(3)] for a in range(3)]
+                pn = [[R(at.momenta.get((a, d))) for d in range(3)] for a in range(3)]
+                cross = lambda u, w: [u[1] * w[2] - u[2] * w[1], u[2] * w[0] - u[0] * w[2], u[0] * w[1] - u[1] * w[0]]
+                J = [[sum(m[k_] * ((sum(r[k_][d] ** 2 for d in range(3)) if a_ == b_ else 0) - r[k_][a_] * r[k_][b_]) for k_ in range(3)) for b_ in range(3)] for a_ in range(3)]
+                invs = I.path.ghost.get("invs", [])
+                H1 = [[sum(g(V, a_, k_) * g(V, b_, k_) for k_ in range(3)) - dl(a_, b_) for b_ in range(3)] for a_ in range(3)]          # V V^T - 1   (TRUSTED contract)
+                H3 = [[sum(g(V, k_, a_) * R(eig.get((k_,))) * g(V, k_, b_) for k_ in range(3)) - J[a_][b_] for b_ in range(3)] for a_ in range(3)]   # V^T D V - J (TRUSTED contract)
+                L0 = [sum(cross(r[a], p0[a])[c_] for a in range(3)) for c_ in range(3)]
+                Ln = [sum(cross(r[a], pn[a])[c_] for a in range(3)) for c_ in range(3)]
+                Hc = [M * c[d] - sum(m[a] * R(at.positions.get((a, d))) for a in range(3)) for d in range(3)]
+                if not invs or not all(t.shape == (3, 3) for t, _ in invs):
+                    # another formulation (e.g. eigen-decomposition of the inverse): no lemma chain prepared, plain SMT
+                    contract = [H1[a_][b_] == 0 for a_ in range(3) for b_ in range(3)] + [H3[a_][b_] == 0 for a_ in range(3) for b_ in range(3)]
+                    contract += [sum(g(V, k_, a_) * g(V, k_, b_) for k_ in range(3)) == dl(a_, b_) for a_ in range(3) for b_ in range(3)]
+                    S.prove(f"{label}#ensures.zero_total_angular_momentum@{i}", z3.And([x == 0 for x in Ln]), hyps=pc + contract, timeout_ms=15000)
+                    S.prove(f"{label}#ensures.total_linear_momentum_unchanged@{i}", z3.And([sum(pn[a][d] for a in range(3)) == sum(p0[a][d] for a in range(3)) for d in range(3)]), hyps=pc + contract, timeout_ms=15000)
+                    return
+                A, Y = invs[-1]
+                H4 = [[sum(g(A, a_, k_) * g(Y, k_, b_) for k_ in range(3)) - dl(a_, b_) for b_ in range(3)] for a_ in range(3)]          # A Y - 1
+                S.prove(f"{label}#lemma.inverse_axioms_are_path_facts@{i}", z3.And([H4[a_][b_] == 0 for a_ in range(3) for b_ in range(3)]), hyps=pc)
+                subX = []
+                for j, (Vin, X) in enumerate(invs[:-1]):
+                    # --- lemma 1: an inverse of the axes matrix is its transpose
+                    H2 = [[sum(g(X, a_, k_) * g(Vin, k_, b_) for k_ in range(3)) - dl(a_, b_) for b_ in range(3)] for a_ in range(3)]    # X Vin - 1
+                    S.prove(f"{label}#lemma.inverse_axioms_are_path_facts[{j}]@{i}", z3.And([H2[a_][b_] == 0 for a_ in range(3) for b_ in range(3)]), hyps=pc)
+                    ob = S.prove(f"{label}#lemma.earlier_inverse_is_of_the_axes[{j}]@{i}", z3.And([g(Vin, a_, b_) == g(V, a_, b_) for a_ in range(3) for b_ in range(3)]), hyps=pc)
+                    for a_ in range(3):
+                        for b_ in range(3):
+                            S.prove_poly(f"{label}#lemma.inverse_of_axes_is_transpose[{j}][{a_}{b_}]@{i}", g(X, a_, b_), g(V, b_, a_),
+                                         [(-g(X, a_, k_), H1[k_][b_]) for k_ in range(3)] + [(g(V, b_, k_), z3.substitute(H2[a_][k_], *[(g(Vin, x_, y_), g(V, x_, y_)) for x_ in range(3) for y_ in range(3)])) for k_ in range(3)])
+                    subX += [(g(X, a_, b_), g(V, b_, a_)) for a_ in range(3) for b_ in range(3)]
+                sub = (lambda t: z3.substitute(t, *subX)) if subX else (lambda t: t)
+                # --- lemma 2: J Y = 1 (the final inverse is the inverse of the inertia tensor)
+                H4s = [[sub(H4[a_][b_]) for b_ in range(3)] for a_ in range(3)]
+                JY = [[sum(J[a_][k_] * g(Y, k_, b_) for k_ in range(3)) - dl(a_, b_) for b_ in range(3)] for a_ in range(3)]
                 for a_ in range(3):
                     for b_ in range(3):
-                        S.prove_poly(f"{label}#lemma.inverse_of_axes_is_transpose[{j}][{a_}{b_}]@{i}", g(X, a_, b_), g(V, b_, a_),
-                                     [(-g(X, a_, k_), H1[k_][b_]) for k_ in range(3)] + [(g(V, b_, k_), z3.substitute(H2[a_][k_], *[(g(Vin, x_, y_), g(V, x_, y_)) for x_ in range(3) for y_ in range(3)])) for k_ in range(3)])
-                subX += [(g(X, a_, b_), g(V, b_, a_)) for a_ in range(3) for b_ in range(3)]
-            sub = (lambda t: z3.substitute(t, *subX)) if subX else (lambda t: t)
-            # --- lemma 2: J Y = 1 (the final inverse is the inverse of the inertia tensor)
-            H4s = [[sub(H4[a_][b_]) for b_ in range(3)] for a_ in range(3)]
-            JY = [[sum(J[a_][k_] * g(Y, k_, b_) for k_ in range(3)) - dl(a_, b_) for b_ in range(3)] for a_ in range(3)]
-            for a_ in range(3):
-                for b_ in range(3):
-                    # the matrix the code inverted IS the inertia tensor (V^T D V once inv(V) = V^T): a wrong transpose fails here
-                    S.prove_poly(f"{label}#lemma.inverted_matrix_is_the_inertia_tensor[{a_}{b_}]@{i}", sub(g(A, a_, b_)), J[a_][b_], [(1, H3[a_][b_])],
-                                 hyps=[H3[x_][y_] == 0 for x_ in range(3) for y_ in range(3)] + [z3.And(*[R(e) > 0 for e in eig.data])])
-                    S.prove_poly(f"{label}#lemma.final_inverse_inverts_inertia[{a_}{b_}]@{i}", JY[a_][b_], z3.RealVal(0),
-                                 [(1, H4s[a_][b_])] + [(-g(Y, k_, b_), sub(g(A, a_, k_)) - J[a_][k_]) for k_ in range(3)])
-            # --- the property
-            for c_ in range(3):
-                S.prove_poly(f"{label}#ensures.zero_total_angular_momentum[{c_}]@{i}", Ln[c_], z3.RealVal(0), [(-L0[b_], JY[c_][b_]) for b_ in range(3)])
-            om = [sum(g(Y, c_, b_) * L0[b_] for b_ in range(3)) for c_ in range(3)]
-            wx = lambda d: [(om[(d + 1) % 3], Hc[(d + 2) % 3]), (-om[(d + 2) % 3], Hc[(d + 1) % 3])]
-            for d in range(3):
-                S.prove_poly(f"{label}#ensures.total_linear_momentum_unchanged[{d}]@{i}", sum(pn[a][d] for a in range(3)), sum(p0[a][d] for a in range(3)), wx(d))
-        S.guarded(label, post)
+                        # the matrix the code inverted IS the inertia tensor (V^T D V once inv(V) = V^T): a wrong transpose fails here
+                        S.prove_poly(f"{label}#lemma.inverted_matrix_is_the_inertia_tensor[{a_}{b_}]@{i}", sub(g(A, a_, b_)), J[a_][b_], [(1, H3[a_][b_])],
+                                     hyps=[H3[x_][y_] == 0 for x_ in range(3) for y_ in range(3)] + [z3.And(*[R(e) > 0 for e in eig.data])])
+                        S.prove_poly(f"{label}#lemma.final_inverse_inverts_inertia[{a_}{b_}]@{i}", JY[a_][b_], z3.RealVal(0),
+                                     [(1, H4s[a_][b_])] + [(-g(Y, k_, b_), sub(g(A, a_, k_)) - J[a_][k_]) for k_ in range(3)])
+                # --- the property
+                for c_ in range(3):
+                    S.prove_poly(f"{label}#ensures.zero_total_angular_momentum[{c_}]@{i}", Ln[c_], z3.RealVal(0), [(-L0[b_], JY[c_][b_]) for b_ in range(3)])
+                om = [sum(g(Y, c_, b_) * L0[b_] for b_ in range(3)) for c_ in range(3)]
+                wx = lambda d: [(om[(d + 1) % 3], Hc[(d + 2) % 3]), (-om[(d + 2) % 3], Hc[(d + 1) % 3])]
+                for d in range(3):
+                    S.prove_poly(f"{label}#ensures.total_linear_momentum_unchanged[{d}]@{i}", sum(pn[a][d] for a in range(3)), sum(p0[a][d] for a in range(3)), wx(d))
+            S.guarded(label, post)
+
+    for again in (False, True):
+        check_fixrot(again)
     return meta
